@@ -1209,6 +1209,154 @@ fn full_term(
     ))
 }
 
+/// kind of a build error as the model names it: (code, digits of a bad escape)
+fn error_kind(e: &str) -> Option<(u32, String)> {
+    let i = e.find("cause: ")?;
+    let c = &e[i + 7..];
+    let name: String = c.chars().take_while(|ch| ch.is_alphanumeric()).collect();
+    let arg = || {
+        let a = c.find("(\"")? + 2;
+        let b = c[a..].find('"')? + a;
+        Some(c[a..b].to_string())
+    };
+    Some(match name.as_str() {
+        "InvalidSize" => (1, String::new()),
+        "InvalidCharLiteral" => {
+            let d = arg()?;
+            if d == "0 in surface" {
+                (12, String::new())
+            } else {
+                (2, d)
+            }
+        }
+        "InvalidI16Literal" => (3, String::new()),
+        "InvalidU32Literal" => (4, String::new()),
+        "InvalidWordId" => (5, String::new()),
+        "InvalidSplit" => {
+            if arg()?.starts_with("A-mode") {
+                (10, String::new())
+            } else {
+                (6, String::new())
+            }
+        }
+        "SplitFormatError" => (7, String::new()),
+        "NoRawField" => (8, String::new()),
+        "PosLimitExceeded" => (9, String::new()),
+        "EmptySurface" => (11, String::new()),
+        _ => return None,
+    })
+}
+
+/// rows the field parsers must refuse, one defect per case (sometimes a second, later one, to pin the order in which the
+/// columns are read): the model refuses them with the same kind of error
+fn rejected_rows(sink: &mut Sink, rng: &mut Rng, n: usize) {
+    let good: Vec<String> = "京都,0,0,5293,京都,名詞,固有名詞,地名,一般,*,*,キョウト,京都,*,C,*,*,*,*".split(',').map(|x| x.to_string()).collect();
+    let long = "a".repeat(32768);
+    let many = vec!["0"; 128].join("/");
+    let bad_escapes = ["\\uD800", "\\udfff", "x\\u{D800}y", "\\u{110000}", "\\u{FFFFFF}", "\\uDBFF\\uDC00", "\\u0041\\ud800", "\\u{dFfF}", "\\u{00d800}"];
+    let bad_i16 = ["32768", "-32769", "1.5", "", "+", "-", "--1", " 5", "5 ", "１２", "0x10", "1e3", "+-1", "99999999999999999999"];
+    let bad_u32 = ["-1", "4294967296", "1//2", "a", "1/", "+", "-0", "1/ 2"];
+    let bad_wid = ["268435456", "U", "Ux", "-1", "U-1", "4294967296", "**", "U268435456", "u1"];
+    let bad_mode = ["D", "", "AB", "A B", "Ａ", "bc", "**"];
+    let bad_inline = ["東,名詞", "x", "+3", "U", "東,名詞,普通名詞,一般,*,*,*", "U+1"];
+    for k in 0..n {
+        let mut row = good.clone();
+        let what: String;
+        match k % 14 {
+            0 => {
+                let c = *rng.pick(&[0usize, 4, 5, 7, 10, 11, 12]);
+                row[c] = rng.pick(&bad_escapes).to_string();
+                what = format!("column {}: escape naming no scalar value", c);
+            }
+            1 => {
+                let c = *rng.pick(&[0usize, 4, 6, 11, 12]);
+                row[c] = long.clone();
+                what = format!("column {}: 32768 bytes", c);
+            }
+            2 => {
+                let c = 1 + rng.below(3) as usize;
+                row[c] = rng.pick(&bad_i16).to_string();
+                what = format!("column {}: no i16 literal", c);
+            }
+            3 => {
+                row[18] = rng.pick(&bad_u32).to_string();
+                what = "synonym column: no u32 literal".into();
+            }
+            4 => {
+                let c = *rng.pick(&[13usize, 17]);
+                row[c] = rng.pick(&bad_wid).to_string();
+                what = format!("column {}: no word id", c);
+            }
+            5 => {
+                row[14] = rng.pick(&bad_mode).to_string();
+                what = "no mode".into();
+            }
+            6 => {
+                row[14] = rng.pick(&["A", "a", " A "]).to_string();
+                row[*rng.pick(&[15usize, 16])] = "0".into();
+                what = "mode A with splits".into();
+            }
+            7 => {
+                row[0] = rng.pick(&["", "\\u0000", "a\\u{0}b"]).to_string();
+                what = "empty surface / NUL in the surface".into();
+            }
+            8 => {
+                row[*rng.pick(&[15usize, 16])] = rng.pick(&bad_inline).to_string();
+                what = "inline reference with fewer than 8 fields".into();
+            }
+            9 => {
+                row[*rng.pick(&[15usize, 16, 17, 18])] = many.clone();
+                what = "list of 128 items".into();
+            }
+            10 => {
+                row.truncate(*rng.pick(&[17usize, 5, 1, 14]));
+                what = "row with too few columns".into();
+            }
+            11 => {
+                // inline reference whose own field carries a bad escape
+                row[15] = format!("東,名詞,普通名詞,{},*,*,*,ヒガシ", rng.pick(&bad_escapes));
+                what = "inline reference: escape naming no scalar value".into();
+            }
+            12 => {
+                // two defects: the earlier column decides
+                row[3] = "x".into();
+                row[13] = "U".into();
+                row[4] = "\\uD800".into();
+                what = "cost, headword and dictionary form bad: the cost is read first".into();
+            }
+            _ => {
+                row[12] = "\\u{110000}".into();
+                row[18] = "x".into();
+                what = "normalised form and synonyms bad: the form is read first".into();
+            }
+        }
+        let mut rows = vec![];
+        if rng.chance(1, 2) {
+            rows.push(good.clone());
+        }
+        rows.push(row);
+        let csv = csv_of_fields(&rows);
+        let desc = json!({"kind": "c05-rejected", "what": what, "fields": if csv.len() < 600 { json!(rows) } else { json!("(long)") }});
+        match compile_system(&csv, "1 1\n0 0 0\n", 0, "") {
+            Err(e) if !e.starts_with("PANIC") => match error_kind(&e) {
+                Some((code, digits)) => {
+                    sink.tag(&format!("rejected_kind_{}", code));
+                    sink.case(format!("check_c05_reject {} {} {}", fields_coq(&rows), cn(code), ctxt(&digits)), desc, true);
+                }
+                None => {
+                    let id = sink.case_rust_only(desc, false);
+                    sink.fail(id, &format!("{}: refused with an error the model has no name for: {}", what, e), "");
+                }
+            },
+            Err(_) => sink.tag("malformed_compiler_panic"), // a compiler panic on malformed input belongs to C06
+            Ok(_) => {
+                let id = sink.case_rust_only(desc, false);
+                sink.fail(id, &format!("malformed row accepted: {}", what), "");
+            }
+        }
+    }
+}
+
 /// inputs the compiler must reject (never a silently different dictionary)
 fn malformed(sink: &mut Sink, rng: &mut Rng, n: usize) {
     let base = "京都,0,0,5293,京都,名詞,固有名詞,地名,一般,*,*,キョウト,京都,*,A,*,*,*,*\n";
@@ -1312,5 +1460,6 @@ pub fn run(args: &Args) {
         }
     }
     malformed(&mut sink, &mut rng, args.n(12, 60));
+    rejected_rows(&mut sink, &mut rng, args.n(140, 1400));
     sink.finish();
 }
